@@ -141,7 +141,7 @@ class FJSP(Adapter):
     has_checker = False
     has_truth = True
     pad_steps = 2
-    properties = ("C02", "C03", "C04", "C07")
+    properties = ("C02", "C03", "C04", "C05", "C07")
     monitor_props = {"Final": "C07", "Step": "C07"}
 
     # ---- instances -------------------------------------------------------
